@@ -1015,7 +1015,7 @@ func TestC19HttpE2E(t *testing.T) {
 			}
 		}, func(src string) (string, error) { return "stress " + src, nil },
 			goat.WithClock(fc), goat.WithConnectionCleanupInterval(time.Second), goat.WithConnectionTimeout(2*time.Second))
-		const sources, conc = 60, 8
+		const sources, conc = 400, 8
 		for n := 0; n < sources; n++ {
 			start := make(chan struct{})
 			var wg sync.WaitGroup
@@ -1031,6 +1031,32 @@ func TestC19HttpE2E(t *testing.T) {
 			}
 			close(start)
 			wg.Wait()
+		}
+		// the same through NewConnection (retrieve with nothing in front of it: the tightest race): 8 goroutines leave a
+		// spinning barrier together and ask for the connection of one new address; they must all get the SAME connection
+		split := 0
+		for n := 0; n < 3000; n++ {
+			addr := fmt.Sprintf("direct %d", n)
+			var got [conc]goat.RpcReadWriter
+			var arrived atomic.Int32
+			var wg sync.WaitGroup
+			for g := 0; g < conc; g++ {
+				wg.Add(1)
+				go func(g int) {
+					defer wg.Done()
+					arrived.Add(1)
+					for arrived.Load() < conc {
+					}
+					got[g] = gohT.NewConnection(addr)
+				}(g)
+			}
+			wg.Wait()
+			for g := 1; g < conc; g++ {
+				if got[g] != got[0] {
+					split++
+					break
+				}
+			}
 		}
 		// the traffic is over: idle timeout. The bound only ends the wait for readers that will never fail.
 		deadline := time.Now().Add(10 * time.Second)
@@ -1054,8 +1080,9 @@ func TestC19HttpE2E(t *testing.T) {
 		stuck, nAnn := readers-finished, len(announced)
 		mu.Unlock()
 		em.Emit(Rec{Idx: idx, Kind: "http-table-stress", Desc: map[string]any{"sources": sources, "concurrent_first_requests": conc},
-			Obs: map[string]any{"addresses_announced": nAnn, "announced_more_than_once": dup, "readers": readers, "readers_not_failed_by_idle_timeout": stuck},
-			Coq: fmt.Sprintf("CAssert 7 %s", coqBool(dup == 0 && stuck == 0 && nAnn == sources)), Tags: []string{"http:table-stress"}})
+			Obs: map[string]any{"addresses_announced": nAnn, "announced_more_than_once": dup, "readers": readers, "readers_not_failed_by_idle_timeout": stuck,
+				"addresses_with_two_connections_of_3000": split},
+			Coq: fmt.Sprintf("CAssert 7 %s", coqBool(dup == 0 && stuck == 0 && nAnn == sources && split == 0)), Tags: []string{"http:table-stress"}})
 		em.Marker("end", idx)
 		gohT.Cancel()
 	}
